@@ -1,2 +1,267 @@
+//! C09 — encodings are canonical and strict: round trips through every codec for explored objects; canonicity
+//! (decode(b) = Ok(x) => encode(x) = b) over honest encodings, all single-bit flips, extensions by 1..=64 octets and
+//! every truncation; forbidden scalar / point classes per slot must be rejected; decisions compared with the
+//! reference decoders written from octets_to_{pubkey,signature,proof}.
+#![allow(non_snake_case)]
+use crate::c08::{honest_octets, kind_name};
 use crate::common::*;
-pub fn run(_env: &Env) {}
+use crate::worker::{base, Base};
+use crate::zk::{Kind, Zk, KINDS};
+use bls12_381_plus::{G1Affine, G2Affine};
+use mccore::{par_for, O};
+use refbbs::Suite;
+use serde_json::{json, Value};
+
+const R_BE: &str = "73eda753299d7d483339d80809a1d80553bda402fffe5bfeffffffff00000001";
+const P_BE: &str = "1a0111ea397fe69a4b1ba7b6434bacd764774b84f38512bf6730d2a0f6b0f6241eabfffeb153ffffb9feffffffffaaab";
+
+fn r_plus(k: u8) -> Vec<u8> { let mut b = hex::decode(R_BE).unwrap(); let mut c = k as u16; for i in (0..32).rev() { let s = b[i] as u16 + c; b[i] = s as u8; c = s >> 8; } b }
+
+/// forbidden G1 encodings (48 octets), each with a name
+fn bad_g1() -> Vec<(&'static str, Vec<u8>, bool)> {
+    // (name, bytes, is_identity) — identity is forbidden only in some slots
+    let mut v: Vec<(&'static str, Vec<u8>, bool)> = Vec::new();
+    let mut id = vec![0u8; 48]; id[0] = 0xc0; v.push(("identity", id.clone(), true));
+    let mut idx = id.clone(); idx[47] = 1; v.push(("identity flag with non-zero x", idx, false));
+    let g = G1Affine::generator().to_compressed().to_vec();
+    let mut nc = g.clone(); nc[0] &= 0x7f; v.push(("compression flag cleared", nc, false));
+    let mut xp = hex::decode(P_BE).unwrap(); xp[0] |= 0x80; v.push(("x = p (not reduced)", xp, false));
+    // x off curve / on curve outside the subgroup, by scanning small x
+    let mut off = None; let mut nosub = None;
+    for x in 1u32..2000 {
+        let mut b = vec![0u8; 48]; b[44..].copy_from_slice(&x.to_be_bytes()); b[0] |= 0x80;
+        let a: [u8; 48] = b.clone().try_into().unwrap();
+        let p = G1Affine::from_compressed_unchecked(&a);
+        if bool::from(p.is_none()) { if off.is_none() { off = Some(b); } }
+        else if !bool::from(p.unwrap().is_torsion_free()) && nosub.is_none() { nosub = Some(b); }
+        if off.is_some() && nosub.is_some() { break; }
+    }
+    v.push(("x not on the curve", off.expect("off-curve x"), false));
+    v.push(("on curve, outside the prime-order subgroup", nosub.expect("non-subgroup point"), false));
+    v
+}
+fn bad_g2() -> Vec<(&'static str, Vec<u8>, bool)> {
+    let mut v: Vec<(&'static str, Vec<u8>, bool)> = Vec::new();
+    let mut id = vec![0u8; 96]; id[0] = 0xc0; v.push(("identity", id.clone(), true));
+    let mut idx = id.clone(); idx[95] = 1; v.push(("identity flag with non-zero x", idx, false));
+    let g = G2Affine::generator().to_compressed().to_vec();
+    let mut nc = g.clone(); nc[0] &= 0x7f; v.push(("compression flag cleared", nc, false));
+    let mut xp = vec![0u8; 96]; xp[..48].copy_from_slice(&hex::decode(P_BE).unwrap()); xp[0] |= 0x80; v.push(("x.c1 = p (not reduced)", xp, false));
+    let mut off = None; let mut nosub = None;
+    for x in 1u32..2000 {
+        let mut b = vec![0u8; 96]; b[92..].copy_from_slice(&x.to_be_bytes()); b[0] |= 0x80;
+        let a: [u8; 96] = b.clone().try_into().unwrap();
+        let p = G2Affine::from_compressed_unchecked(&a);
+        if bool::from(p.is_none()) { if off.is_none() { off = Some(b); } }
+        else if !bool::from(p.unwrap().is_torsion_free()) && nosub.is_none() { nosub = Some(b); }
+        if off.is_some() && nosub.is_some() { break; }
+    }
+    v.push(("x not on the curve", off.expect("off-curve x"), false));
+    v.push(("on curve, outside the prime-order subgroup", nosub.expect("non-subgroup point"), false));
+    v
+}
+fn bad_scalars() -> Vec<(&'static str, Vec<u8>, bool)> {
+    // (name, bytes, is_zero)
+    vec![("r", r_plus(0), false), ("r+1", r_plus(1), false), ("2^256-1", vec![0xff; 32], false), ("zero", vec![0u8; 32], true)]
+}
+
+fn dec(zk: &dyn Zk, k: Kind, b: &[u8]) -> O<Vec<u8>> {
+    match k { Kind::Pk => zk.dec_pk(b), Kind::Sk => zk.dec_sk(b), Kind::Sig => zk.dec_sig(b), Kind::BlindSig => zk.dec_blind_sig(b), Kind::Proof => zk.dec_proof(b), Kind::Commitment => zk.dec_commitment(b) }
+}
+/// reference decision: Some(true) accept, Some(false) reject, None = outside what the drafts / the property pin down
+fn ref_dec(s: Suite, k: Kind, b: &[u8]) -> Option<bool> {
+    match k {
+        Kind::Pk => Some(refbbs::octets_to_pubkey(b).is_ok()),
+        Kind::Sk => Some(refbbs::octets_to_scalar_strict(b).is_ok()),
+        Kind::Sig | Kind::BlindSig => Some(refbbs::octets_to_signature(b).is_ok()),
+        Kind::Proof => {
+            // zero response scalars: INVALID in the draft, not named by the property => don't care
+            if b.len() >= 272 && (b.len() - 272) % 32 == 0 && b[144..].chunks(32).any(|c| c.iter().all(|&x| x == 0)) { return None; }
+            Some(refbbs::octets_to_proof(b).is_ok())
+        }
+        Kind::Commitment => {
+            let _ = s;
+            if b.len() < 112 || (b.len() - 112) % 32 != 0 { return Some(false); }
+            if b[0] == 0xc0 && b[1..48].iter().all(|&x| x == 0) { return None; } // identity commitment: not pinned
+            let okp = refbbs::octets_to_point_g1(&b[..48]).is_ok();
+            let oks = b[48..].chunks(32).all(|c| refbbs::octets_to_scalar_strict(c).is_ok());
+            Some(okp && oks)
+        }
+    }
+}
+
+struct Item { id: String, suite: Suite, kind: Kind, honest: Vec<u8>, what: &'static str }
+
+pub fn run(env: &Env) {
+    env.ctx.set_rule("objects: keys k0..k2, signatures, blind signatures, proofs (U in 0..=3), commitments (M in 0..=2), blinding factors, both suites. (1) round trip through octets, public-key coordinates and serde_json; (2) canonicity: for the honest encoding, ALL its single-bit flips, ALL extensions by 1..=64 octets with fillers {00, ff, copy of tail} and EVERY truncation: decode(b) = Ok(x) => encode(x) = b, and accept/reject equals the reference decoder; (3) forbidden classes in every slot: scalars {r, r+1, 2^256-1} (and 0 for e), points {identity where forbidden, identity flag with x != 0, compression flag cleared, x >= p, x off curve, on-curve point outside the subgroup} for G1 and G2, through octets, coordinates and JSON. State = (object, encoded string); non-trivial = the real decoder ran on it.");
+    let mut items: Vec<Item> = Vec::new();
+    for s in suites() {
+        let b: Base = base(s);
+        for k in KINDS { items.push(Item { id: format!("{}/{}/canonicity", s.name(), kind_name(k)), suite: s, kind: k, honest: honest_octets(&b, k), what: "canonicity" }); }
+        items.push(Item { id: format!("{}/proof-U0/canonicity", s.name()), suite: s, kind: Kind::Proof, honest: z(s).proof_gen(&b.key.pk, &b.sig, Some(&b.header), Some(&b.ph), Some(&b.msgs), Some(&[0, 1, 2])).ok().unwrap(), what: "canonicity" });
+        items.push(Item { id: format!("{}/commitment-M0/canonicity", s.name()), suite: s, kind: Kind::Commitment, honest: z(s).commit(None).ok().unwrap().0, what: "canonicity" });
+        items.push(Item { id: format!("{}/roundtrips", s.name()), suite: s, kind: Kind::Pk, honest: vec![], what: "roundtrips" });
+        items.push(Item { id: format!("{}/forbidden", s.name()), suite: s, kind: Kind::Pk, honest: vec![], what: "forbidden" });
+    }
+    par_for(&items, |_, it| {
+        if !env.want(&it.id) || env.ctx.out_of_time() { return; }
+        match it.what { "canonicity" => canonicity(env, it), "roundtrips" => roundtrips(env, it), _ => forbidden(env, it) }
+    });
+}
+
+fn judge(env: &Env, it: &Item, k: Kind, name: &str, cls: &str, b: &[u8]) {
+    if !env.ctx.state(&[it.id.as_bytes(), kind_name(k).as_bytes(), b]) { return; }
+    let zk = z(it.suite);
+    let got = dec(zk, k, b);
+    env.ctx.step();
+    let det = json!({"suite": it.suite.name(), "kind": kind_name(k), "input": name, "octets": hex::encode(b)});
+    match &got {
+        O::Panic(p) => env.ctx.violation(&format!("C09:{}:{}:panic", kind_name(k), cls), &format!("decoder panicked on {}: {}", name, p), env.case(&it.id, det.clone())),
+        O::Ok(re) => {
+            if re != b { env.ctx.violation(&format!("C09:{}:{}:non-canonical-accepted", kind_name(k), cls), &format!("{}: decode(b) = Ok(x) but encode(x) != b (|b|={}, |encode(x)|={})", name, b.len(), re.len()), env.case(&it.id, det.clone())); }
+            if ref_dec(it.suite, k, b) == Some(false) { env.ctx.violation(&format!("C09:{}:{}:accepted-but-reference-rejects", kind_name(k), cls), &format!("{}: accepted, reference decoder rejects", name), env.case(&it.id, det.clone())); }
+            env.ctx.class(&format!("{}:accept", cls));
+        }
+        O::Err(_) => {
+            if ref_dec(it.suite, k, b) == Some(true) { env.ctx.violation(&format!("C09:{}:{}:rejected-but-reference-accepts", kind_name(k), cls), &format!("{}: rejected, reference decoder accepts", name), env.case(&it.id, det.clone())); }
+            env.ctx.class(&format!("{}:reject", cls));
+        }
+    }
+    env.ctx.trace();
+}
+
+fn canonicity(env: &Env, it: &Item) {
+    let h = &it.honest;
+    let k = it.kind;
+    judge(env, it, k, "honest encoding", "honest", h);
+    if dec(z(it.suite), k, h).ok().as_deref() != Some(&h[..]) { env.ctx.violation(&format!("C09:{}:honest:roundtrip", kind_name(k)), "decode(encode(x)) != x for an honest object", env.case(&it.id, json!({"octets": hex::encode(h)}))); }
+    for bit in 0..h.len() * 8 { judge(env, it, k, &format!("flip bit {}", bit), "bitflip", &flip(h, bit)); }
+    for n in 1..=64usize {
+        for (fname, f) in [("00", 0u8), ("ff", 0xff)] { let mut b = h.clone(); b.extend(vec![f; n]); judge(env, it, k, &format!("extended by {} x {}", n, fname), "extension", &b); }
+        let mut b = h.clone(); let tail: Vec<u8> = h[h.len() - n.min(h.len())..].to_vec(); b.extend(tail); judge(env, it, k, &format!("extended by a copy of the last {} octets", n), "extension", &b);
+    }
+    for n in 0..h.len() { judge(env, it, k, &format!("truncated to {} octets", n), "truncation", &h[..n]); }
+    env.ctx.sample(json!({"root": it.id, "honest_len": h.len()}));
+}
+
+fn roundtrips(env: &Env, it: &Item) {
+    let s = it.suite;
+    let zk = z(s);
+    let seed = env.ctx.seed;
+    let mut objs: Vec<(Kind, String, Vec<u8>)> = Vec::new();
+    for k in keys(s) {
+        objs.push((Kind::Pk, format!("pk {}", k.id), k.pk.clone()));
+        objs.push((Kind::Sk, format!("sk {}", k.id), k.sk.clone()));
+        for l in [0usize, 1, 3] {
+            let msgs = distinct_msgs(seed, "c09", l);
+            if let O::Ok(sig) = zk.sign(&k.sk, &k.pk, Some(b"h"), Some(&msgs)) {
+                objs.push((Kind::Sig, format!("sig {} L{}", k.id, l), sig.clone()));
+                for d in mccore::subsets(l) { if let O::Ok(p) = zk.proof_gen(&k.pk, &sig, Some(b"h"), None, Some(&msgs), Some(&d)) { objs.push((Kind::Proof, format!("proof {} L{} D{:?}", k.id, l, d), p)); } }
+            }
+            for m in 0..=2usize {
+                let cms = distinct_msgs(seed, "c09c", m);
+                if let O::Ok((c, _b)) = zk.commit(Some(&cms)) {
+                    objs.push((Kind::Commitment, format!("commitment M{}", m), c.clone()));
+                    if let O::Ok(bs) = zk.blind_sign(&k.sk, &k.pk, Some(&c), None, Some(&msgs)) { objs.push((Kind::BlindSig, format!("blind sig {} L{} M{}", k.id, l, m), bs)); }
+                }
+            }
+        }
+    }
+    for (k, name, b) in objs {
+        if !env.ctx.state(&[it.id.as_bytes(), kind_name(k).as_bytes(), &b]) { continue; }
+        let det = json!({"suite": s.name(), "object": name, "octets": hex::encode(&b)});
+        let o = dec(zk, k, &b); env.ctx.step();
+        if o.clone().ok().as_deref() != Some(&b[..]) { env.ctx.violation(&format!("C09:{}:roundtrip:octets", kind_name(k)), &format!("{}: {}", name, o.describe()), env.case(&it.id, det.clone())); }
+        let j = zk.json_of(k, &b); env.ctx.step();
+        match j {
+            O::Ok(js) => { let back = zk.octets_of_json(k, &js); env.ctx.step(); if back.clone().ok().as_deref() != Some(&b[..]) { env.ctx.violation(&format!("C09:{}:roundtrip:json", kind_name(k)), &format!("{}: {}", name, back.describe()), env.case(&it.id, det.clone())); } }
+            o => env.ctx.violation(&format!("C09:{}:roundtrip:json-encode", kind_name(k)), &format!("{}: {}", name, o.describe()), env.case(&it.id, det.clone())),
+        }
+        if k == Kind::Pk { let c = zk.pk_coords_roundtrip(&b); env.ctx.step(); if c.clone().ok().as_deref() != Some(&b[..]) { env.ctx.violation("C09:pk:roundtrip:coordinates", &format!("{}: {}", name, c.describe()), env.case(&it.id, det.clone())); } }
+        env.ctx.class(&format!("roundtrip:{}", kind_name(k)));
+        env.ctx.trace();
+    }
+    // blinding factors
+    for i in 0..8 { if let O::Ok(b) = zk.random_blind_factor() { env.ctx.state(&[it.id.as_bytes(), &b]); let r = zk.dec_blind_factor(&b); env.ctx.step(); if r.clone().ok().as_deref() != Some(&b[..]) { env.ctx.violation("C09:blind-factor:roundtrip", &r.describe(), env.case(&it.id, json!({"i": i}))); } env.ctx.trace(); } }
+    match zk.keygen_json_roundtrip(&[7u8; 32]) { O::Ok(true) => {}, o => env.ctx.violation("C09:keypair:roundtrip:json", &format!("{:?}", o.describe()), env.case(&it.id, json!({}))) }
+}
+
+fn forbidden(env: &Env, it: &Item) {
+    let s = it.suite;
+    let zk = z(s);
+    let b = base(s);
+    let expect_err = |k: Kind, slot: &str, name: &str, bytes: &[u8], via: &str, got: O<Vec<u8>>| {
+        if !env.ctx.state(&[it.id.as_bytes(), via.as_bytes(), kind_name(k).as_bytes(), slot.as_bytes(), bytes]) { return; }
+        env.ctx.step();
+        let det = json!({"suite": s.name(), "kind": kind_name(k), "slot": slot, "forbidden": name, "via": via, "octets": hex::encode(bytes)});
+        match got {
+            O::Err(_) => env.ctx.class(&format!("forbidden:{}:rejected", via)),
+            O::Ok(_) => env.ctx.violation(&format!("C09:{}:forbidden:{}:{}:accepted", kind_name(k), via, if name == "identity" || name == "zero" { name } else { "malformed" }), &format!("{} slot {} := {} accepted via {}", kind_name(k), slot, name, via), env.case(&it.id, det)),
+            O::Panic(p) => env.ctx.violation(&format!("C09:{}:forbidden:{}:panic", kind_name(k), via), &format!("{} slot {} := {}: {}", kind_name(k), slot, name, p), env.case(&it.id, det)),
+        }
+        env.ctx.trace();
+    };
+    // JSON form of each honest object, to substitute leaves
+    let jsub = |k: Kind, path: &[&str], val: &[u8], le: bool| -> Option<String> {
+        let j = zk.json_of(k, &honest_octets(&b, k)).ok()?;
+        let mut v: Value = serde_json::from_str(&j).ok()?;
+        let mut bytes = val.to_vec(); if le { bytes.reverse(); }
+        let p: Vec<String> = path.iter().map(|x| x.to_string()).collect();
+        if p.is_empty() { v = json!(hex::encode(&bytes)); } else { crate::c08::set_path(&mut v, &p, Some(json!(hex::encode(&bytes)))); }
+        Some(v.to_string())
+    };
+    // does the JSON codec write scalars big-endian?
+    let sj = zk.json_of(Kind::Sk, &b.key.sk).ok().unwrap_or_default();
+    let le = !sj.contains(&hex::encode(&b.key.sk));
+    // ---- public key (G2 slot)
+    for (name, bytes, _id) in bad_g2() {
+        expect_err(Kind::Pk, "W", name, &bytes, "octets", zk.dec_pk(&bytes));
+        if let Some(j) = jsub(Kind::Pk, &[], &bytes, false) { expect_err(Kind::Pk, "W", name, &bytes, "json", zk.octets_of_json(Kind::Pk, &j)); }
+    }
+    // coordinates: identity and off-curve / non-subgroup uncompressed points
+    let mut idu = [0u8; 192]; idu[0] = 0x40;
+    let (x, y): ([u8; 96], [u8; 96]) = (idu[..96].try_into().unwrap(), idu[96..].try_into().unwrap());
+    expect_err(Kind::Pk, "(x,y)", "identity", &idu, "coordinates", zk.pk_from_coords(&x, &y));
+    if let O::Ok((hx, hy)) = zk.pk_to_coords(&b.key.pk) {
+        let mut y2 = hy.clone(); y2[95] ^= 1;
+        expect_err(Kind::Pk, "(x,y)", "y altered (not on curve)", &[hx.clone(), y2.clone()].concat(), "coordinates", zk.pk_from_coords(&hx.clone().try_into().unwrap(), &y2.try_into().unwrap()));
+        let mut x2 = hx.clone(); x2[0] |= 0x80;
+        expect_err(Kind::Pk, "(x,y)", "compression flag set in uncompressed form", &[x2.clone(), hy.clone()].concat(), "coordinates", zk.pk_from_coords(&x2.try_into().unwrap(), &hy.clone().try_into().unwrap()));
+    }
+    // ---- scalar-only kinds
+    for (name, bytes, zero) in bad_scalars() {
+        if !zero { expect_err(Kind::Sk, "sk", name, &bytes, "octets", zk.dec_sk(&bytes)); if let Some(j) = jsub(Kind::Sk, &[], &bytes, le) { expect_err(Kind::Sk, "sk", name, &bytes, "json", zk.octets_of_json(Kind::Sk, &j)); } }
+        if !zero { expect_err(Kind::Sk, "blind factor", name, &bytes, "octets", zk.dec_blind_factor(&bytes)); }
+        // signature e (zero forbidden)
+        for (k, honest) in [(Kind::Sig, &b.sig), (Kind::BlindSig, &b.bsig)] {
+            let mut x = honest.clone(); x[48..].copy_from_slice(&bytes); expect_err(k, "e", name, &x, "octets", dec(zk, k, &x));
+            if let Some(j) = jsub(k, &["BBSplus", "e"], &bytes, le) { expect_err(k, "e", name, &x, "json", zk.octets_of_json(k, &j)); }
+        }
+        if !zero {
+            let nsc = (b.proof.len() - 144) / 32;
+            for slot in 0..nsc { let mut x = b.proof.clone(); x[144 + 32 * slot..176 + 32 * slot].copy_from_slice(&bytes); expect_err(Kind::Proof, &format!("scalar#{}", slot), name, &x, "octets", zk.dec_proof(&x)); }
+            for (slot, path) in [("e_cap", vec!["BBSplus", "e_cap"]), ("r1_cap", vec!["BBSplus", "r1_cap"]), ("r3_cap", vec!["BBSplus", "r3_cap"]), ("m_cap[0]", vec!["BBSplus", "m_cap", "0"]), ("challenge", vec!["BBSplus", "challenge"])] {
+                if let Some(j) = jsub(Kind::Proof, &path, &bytes, le) { expect_err(Kind::Proof, slot, name, &bytes, "json", zk.octets_of_json(Kind::Proof, &j)); }
+            }
+            let ncs = (b.cwp.len() - 48) / 32;
+            for slot in 0..ncs { let mut x = b.cwp.clone(); x[48 + 32 * slot..80 + 32 * slot].copy_from_slice(&bytes); expect_err(Kind::Commitment, &format!("scalar#{}", slot), name, &x, "octets", zk.dec_commitment(&x)); }
+        }
+    }
+    // ---- G1 slots
+    for (name, bytes, is_id) in bad_g1() {
+        for (k, honest) in [(Kind::Sig, &b.sig), (Kind::BlindSig, &b.bsig)] {
+            let mut x = honest.clone(); x[..48].copy_from_slice(&bytes); expect_err(k, "A", name, &x, "octets", dec(zk, k, &x));
+            if let Some(j) = jsub(k, &["BBSplus", "A"], &bytes, false) { expect_err(k, "A", name, &x, "json", zk.octets_of_json(k, &j)); }
+        }
+        for (slot, sname) in [(0usize, "Abar"), (1, "Bbar"), (2, "D")] {
+            let mut x = b.proof.clone(); x[48 * slot..48 * slot + 48].copy_from_slice(&bytes); expect_err(Kind::Proof, sname, name, &x, "octets", zk.dec_proof(&x));
+            if let Some(j) = jsub(Kind::Proof, &["BBSplus", sname], &bytes, false) { expect_err(Kind::Proof, sname, name, &x, "json", zk.octets_of_json(Kind::Proof, &j)); }
+        }
+        if !is_id { let mut x = b.cwp.clone(); x[..48].copy_from_slice(&bytes); expect_err(Kind::Commitment, "C", name, &x, "octets", zk.dec_commitment(&x)); }
+    }
+    // wrong total lengths for the fixed-size kinds: every length != canonical in 0..=2*canonical
+    for (k, honest) in [(Kind::Pk, &b.key.pk), (Kind::Sk, &b.key.sk), (Kind::Sig, &b.sig)] {
+        for n in 0..=2 * honest.len() { if n == honest.len() { continue; } let mut x: Vec<u8> = honest.iter().copied().take(n).collect(); x.resize(n, 0); expect_err(k, "length", "wrong total length", &x, "octets", dec(zk, k, &x)); }
+    }
+    env.ctx.sample(json!({"root": it.id, "g1_classes": bad_g1().iter().map(|x| x.0).collect::<Vec<_>>(), "scalar_classes": ["r", "r+1", "2^256-1", "zero (e only)"]}));
+}
